@@ -669,6 +669,7 @@ func init() {
 			pf.Cancellers, pf.CancelOps = [2]int{0, 1}, [2]int{1, 2}
 			pf.Cancel = []wop{{opCloseJob, 6}, {opPurge, 1}, {opCloseQueue, 2}}
 			pf.Releaser = 50
+			pf.BatchWaitPct = 60 // (the items' own status is read right after the batch Wait returned)
 			if r.Chance(30) {
 				// lifecycle events while jobs run: a running function keeps its job Processing
 				// through Pause/Stop/Restart and through a cancelled worker context
